@@ -257,13 +257,23 @@ func gen(t *rapid.T) Case {
 		// (a source that hands out fewer items than asked for without being exhausted would break the
 		// Container contract pub.Collection keeps — C10 — so no such source is generated)
 		n := rapid.IntRange(0, 12).Draw(t, "nitems")
+		long := rapid.IntRange(0, 11).Draw(t, "longsource") == 7
+		if long {
+			// a busy source: longer than any page size or batch a reader might assume
+			n = rapid.SampledFrom([]int{21, 26, 45, 70}).Draw(t, "longn")
+		}
 		sorted := rapid.Bool().Draw(t, "sorted")
 		stamp := rapid.IntRange(3, 9).Draw(t, "firststamp")
+		if long {
+			stamp = 60
+		}
 		for k := 0; k < n; k++ {
 			serial++
 			it := Item{Tag: fmt.Sprintf("s%d-%d", i, serial)}
 			if sorted {
-				stamp -= rapid.IntRange(0, 2).Draw(t, "dec")
+				if !(long && stamp > 9 && k%3 != 0) { // long sources stay above the others' range for a while: they alone supply the feed
+					stamp -= rapid.IntRange(0, 2).Draw(t, "dec")
+				}
 				if stamp < 0 {
 					stamp = 0
 				}
@@ -281,7 +291,7 @@ func gen(t *rapid.T) Case {
 	}
 	nsteps := rapid.IntRange(1, 12).Draw(t, "nsteps")
 	for i := 0; i < nsteps; i++ {
-		c.Steps = append(c.Steps, Step{Op: rapid.SampledFrom([]string{"next", "next", "next", "again"}).Draw(t, "op"), N: uint(rapid.IntRange(0, 9).Draw(t, "n"))})
+		c.Steps = append(c.Steps, Step{Op: rapid.SampledFrom([]string{"next", "next", "next", "again"}).Draw(t, "op"), N: uint(rapid.SampledFrom([]int{0, 1, 2, 3, 4, 5, 6, 7, 8, 9, 1, 2, 3, 5, 6, 15, 20, 21, 25, 40, 64}).Draw(t, "n"))})
 	}
 	return c
 }
